@@ -39,6 +39,8 @@ ASSUMPTIONS = [
     "round numbers < 1 or > 100000 are outside the contract: such a call may fire at any time (exactly once, never after stop)",
     "slot durations are multiples of 3 ms (duty-type offsets slot/3 and 2*slot/3 are whole milliseconds)",
     "feature flags are not changed while timer objects exist",
+    "'fires' = the channel delivers exactly one time value and is never closed (the RoundTimer interface comment says 'a channel "
+    "that will be closed when the round expires'; no implementation closes it, qbft.Run receives once)",
 ]
 
 CTORS = {("inc", False): (["incDuty", "incDutyClock"], ["inc", "incClock"]),
@@ -140,9 +142,106 @@ def random_schedule(r, big):
              "slotms": slotms, "objs": objs}] + steps + tail(r, ncalls)
 
 
+# (c) the way qbft.Run uses a timer object: Timer(1) at the start, then stopTimer(); Timer(round) at every round change (timeout
+# of the current round, f+1 ROUND-CHANGEs, justified PRE-PREPARE of a later round) and once more on a justified PRE-PREPARE
+# of the current round; stopTimer() on a decision.  Two instances (duties) side by side.  The clock steps AIM at the moments
+# the channels fire (rough model below, only for aiming: the oracle is RoundTimer.tla).
+def _aim_kind(cfg, ob):
+    c = ob["ctor"]
+    if c != "func":
+        return "inc" if c.startswith("inc") else "eager" if c.startswith("eager") else "linear"
+    if cfg["linear"] and ob["dtype"] == "proposer":
+        return "linear"
+    return "eager" if cfg["eager"] else "inc"
+
+
+def _aim_timeout(kind, rd, prop):
+    if kind == "inc":
+        return 1500 if prop and rd == 1 else 750 + 250 * rd
+    if kind == "eager":
+        return 1000 * rd + (500 if prop else 0)
+    return (1500 if prop else 1000) if rd == 1 else 200 * rd
+
+
+def qbft_schedule(r, big):
+    linear, eager, proposal = r.random() < 0.3, r.random() < 0.75, r.random() < 0.7
+    slotms = r.choice([3000, 6000, 12000, 12000, 0])
+    objs, starts = [], []
+    for _ in range(2):
+        dtype = r.choice(["proposer", "proposer", "attester", "attester", "aggregator", "sync_contribution", "randao", "sync_message"])
+        via = r.choice(["func"] * 5 + ["eager", "eager", "inc", "linear"])
+        timing = via == "func" or (via == "eager" and r.random() < 0.7)
+        objs.append({"ctor": pick_ctor(r, via, timing, dtype, r.choice([0, 1, 2])), "dtype": dtype, "slot": r.choice([0, 1, 2])})
+    # genesis so that the first duty starts about when its instance starts
+    dt = objs[0]["dtype"]
+    delay = slotms // 3 if dt == "attester" else 2 * slotms // 3 if dt in ("aggregator", "sync_contribution") else 0
+    genesis = -(slotms * objs[0]["slot"] + delay) + r.choice([0, 0, 0, 100, -100, -700, 400, -2500])
+    cfg = {"ev": "Cfg", "linear": linear, "eager": eager, "proposal": proposal, "hasgen": r.random() < 0.9, "genesis": genesis,
+           "slotms": slotms, "objs": objs}
+    timed = []       # (time, seq, object, what)
+    for oi, ob in enumerate(objs):
+        kind = _aim_kind(cfg, ob)
+        prop = proposal and ob["dtype"] == "proposer"
+        absolute = kind == "eager" and ob["ctor"] in ("func", "eagerTiming", "eagerTimingClock") and cfg["hasgen"] and slotms > 0
+        d2 = ob["dtype"]
+        ds = genesis + slotms * ob["slot"] + (slotms // 3 if d2 == "attester" else 2 * slotms // 3 if d2 in ("aggregator", "sync_contribution") else 0)
+        now = r.choice([0, 0, 0, 200, 500, 900]) + (oi * r.choice([0, 0, 300, 1000]))
+        rd, firstdl, seen_pp = 1, {}, False
+
+        def arm(rd, now):
+            T = _aim_timeout(kind, rd, prop)
+            if kind != "eager":
+                return now + T
+            if rd in firstdl:
+                return firstdl[rd] + T
+            firstdl[rd] = (ds if absolute else now) + T
+            return firstdl[rd]
+        timed.append((now, len(timed), oi + 1, ("call", rd)))
+        dl = arm(rd, now)
+        for _ in range(r.randint(2, 9 if big else 6)):
+            k = r.random()
+            if k < 0.35 and not seen_pp:        # justified PRE-PREPARE of the current round
+                at = now + r.choice([0, 1, 50, 300, max(0, dl - now - 1), max(0, dl - now), r.randint(0, max(1, dl - now))]) if dl > now else now
+                if at > max(dl, now):
+                    at = max(dl, now)
+                now, seen_pp = at, True
+                timed.append((now, len(timed), oi + 1, ("stop",)))
+                timed.append((now, len(timed), oi + 1, ("call", rd)))
+                dl = arm(rd, now)
+            elif k < 0.75:                       # timeout -> next round
+                now = max(now, dl + r.choice([0, 0, 0, 0, 1]))
+                rd, seen_pp = rd + 1, False
+                timed.append((now, len(timed), oi + 1, ("stop",)))
+                timed.append((now, len(timed), oi + 1, ("call", rd)))
+                dl = arm(rd, now)
+            elif k < 0.9:                        # f+1 ROUND-CHANGEs / justified PRE-PREPARE of a later round
+                now = now + (r.randint(0, max(1, dl - now)) if dl > now else 0)
+                rd, seen_pp = rd + r.choice([1, 1, 2, 3]), r.random() < 0.5
+                timed.append((now, len(timed), oi + 1, ("stop",)))
+                timed.append((now, len(timed), oi + 1, ("call", rd)))
+                dl = arm(rd, now)
+            else:                                # decided
+                now = now + (r.randint(0, max(1, dl - now)) if dl > now else 0)
+                timed.append((now, len(timed), oi + 1, ("stop",)))
+                break
+    timed.sort()
+    steps, now, ncalls, cur = [], 0, 0, {}
+    for at, _, o, what in timed:
+        if at > now:
+            steps.append({"ev": "Adv", "d": at - now})
+            now = at
+        if what[0] == "call":
+            ncalls += 1
+            cur[o] = ncalls
+            steps.append({"ev": "Call", "o": o, "r": what[1]})
+        elif o in cur:
+            steps.append({"ev": "Stop", "k": cur[o]})
+    return [cfg] + steps + tail(r, ncalls)
+
+
 def random_schedules(seed, n, big):
     r = vlib.rng(seed, "roundtimer-rnd")
-    return [random_schedule(r, big) for _ in range(n)]
+    return [qbft_schedule(r, big) if i % 3 == 2 else random_schedule(r, big) for i in range(n)]
 
 
 # ----------------------------------------------------------------------------------------------------------------------
@@ -276,11 +375,21 @@ CONTROLS = (("ctl_resetOnRepeat", "DoubleNotReset", "eager: a repeated call re-a
             ("ctl_linearFirstShort", "AsDocumented", "linear: round 1 treated like the later rounds"),
             ("ctl_eagerBeforeLinear", "SelectionAsDocumented", "GetRoundTimerFunc: eager flag takes precedence over linear"),
             ("ctl_linearAllDuties", "SelectionAsDocumented", "GetRoundTimerFunc: linear for every duty type"),
-            ("ctl_live", "temporal", "liveness control: 'every channel fires' although stopped ones must not"))
+            ("ctl_live", "temporal", "liveness control: 'every channel fires' although stopped ones must not"),
+            ("obs_zeroLengthRound", "QbftRoundHasTime", "AS CODED (observation): with absolute deadlines a round entered at the timeout "
+             "of a doubled round starts with a deadline that has passed and gets no time at all"))
+OBSERVATION = ("eager double-linear timer with genesis + slot duration (what GetRoundTimerFunc makes): the first deadline of round r is "
+               "dutyStart + r s whatever happened before; qbft.Run enters round r when round r-1 timed out, a doubled round r-1 ends at "
+               "dutyStart + 2(r-1) s >= dutyStart + r s, so round r fires at once (zero-length round: its leader is skipped) and without "
+               "doubling every round lasts 1 s, not '1s, 2s, 3s' as the type's comment says; on relative time (constructors without "
+               "genesis) every round has r s (RoundTimerMC_obs_relativeHasTime).  TLC counterexample: Timer(1)@0, Timer(1)@0 (doubled, "
+               "2 s), fires @2 s, Timer(2)@2 s has deadline 2 s.  Repro: harness/roundtimer/obs_test.go.  The component does what its "
+               "documented absolute deadline function says (no conformance failure); system-level consequence: known finding "
+               "C04-eager-timer-tie-desync")
 
-QUICK_MC = ["inc", "eagerrel", "eagerabs", "linear", "lineardirect", "select", "corner", "contract", "live"]
+QUICK_MC = ["inc", "eagerrel", "eagerabs", "linear", "lineardirect", "select", "corner", "contract", "live", "obs_relativeHasTime"]
 THOROUGH_MC = ["inc_thorough", "eagerrel_thorough", "eagerabs_thorough", "linear_thorough", "lineardirect", "select", "corner",
-               "contract_thorough", "one_eager_thorough", "live_thorough"]
+               "contract_thorough", "one_eager_thorough", "live_thorough", "obs_relativeHasTime"]
 
 
 def design_check(o, tier, seed):
@@ -325,6 +434,8 @@ def design_check(o, tier, seed):
             if got != inv:
                 raise vlib.Infra("design-spec control failed: '%s' not caught by %s: %s" % (what, inv, r.summary()))
             o.selftests.append({"control": "RoundTimer spec variant '%s' violates %s" % (what, inv), "rejected_as_required": True})
+        if controls:
+            o.notes.append("OBSERVATION RoundTimer: " + OBSERVATION)
     return hists, join
 
 
